@@ -129,6 +129,22 @@ def r2(ctx):
             ctx.bad(construct, 'fields-compared',
                     f'equality does not see every field: compares {sorted(compared)}, must compare {sorted(want)} '
                     f'(class guard: {cls_guard})', eq.loc())
+    # error discipline: comparing two well-formed regions never raises — a frame mismatch (TypeError) or a shape
+    # mismatch (ValueError, e.g. polygons with different numbers of vertices) of a SkyCoord/Quantity field means "unequal"
+    caught = set()
+    for n in ast.walk(eq.node):
+        if isinstance(n, ast.ExceptHandler):
+            names = [norm(e) for e in n.type.elts] if isinstance(n.type, ast.Tuple) else ([norm(n.type)] if n.type else ['Exception'])
+            if any(isinstance(x, ast.Return) and isinstance(x.value, ast.Constant) and x.value.value is False for x in n.body):
+                caught |= set(names)
+    need = {'TypeError', 'ValueError'}
+    if need <= caught or caught & {'Exception', 'BaseException'}:
+        ctx.ok('Region.__eq__:exceptions', 'TypeError and ValueError of field comparisons mean unequal')
+    else:
+        ctx.bad('Region.__eq__', 'comparison-raises',
+                f'field comparison exceptions turned into False: {sorted(caught)}; missing {sorted(need - caught)} — '
+                'PolygonSkyRegion with 3 vertices == PolygonSkyRegion with 4 vertices raises ValueError (shape mismatch) instead '
+                'of returning False', eq.loc())
     ne = method_or_fail(ctx, reg, '__ne__')
     if norm(ne.node.body[-1]).replace(' ', '') in ('returnnot(self==other)', 'returnnotself==other',
                                                       'returnnotself.__eq__(other)'):
@@ -231,7 +247,7 @@ def r5(ctx):
 
 RULES = [
     RuleDef('R1', 'Region.copy: deep, complete, class-preserving (23 classes x 2)', r1, 41),
-    RuleDef('R2', 'Region.__eq__ compares class and every field; __ne__ negates', r2, 24),
+    RuleDef('R2', 'Region.__eq__ compares class and every field, never raises; __ne__ negates', r2, 25),
     RuleDef('R3', '_params = constructor parameters, each stored', r3, 23),
     RuleDef('R4', 'PixCoord.copy / Meta.copy deep; PixCoord.__eq__', r4, 3),
     RuleDef('R5', 'Regions slicing/copy bind a new list', r5, 2),
